@@ -47,7 +47,7 @@ impl TryFrom<ProvisionalIotaDocument> for IotaDocument {
   fn try_from(provisional: ProvisionalIotaDocument) -> std::result::Result<Self, Self::Error> {
     let ProvisionalIotaDocument { document, metadata } = provisional;
 
-    IotaDID::check_validity(document.id()).map_err(|_| {
+    IotaDID::check_normalized(document.id()).map_err(|_| {
       Error::SerializationError(
         "deserializing iota document failed: id does not conform to the IOTA method specification",
         None,
@@ -60,7 +60,7 @@ impl TryFrom<ProvisionalIotaDocument> for IotaDocument {
       .into_iter()
       .flatten()
     {
-      IotaDID::check_validity(controller_id).map_err(|_| {
+      IotaDID::check_normalized(controller_id).map_err(|_| {
         Error::SerializationError(
           "deserializing iota document failed: controller not conforming to the iota method specification detected",
           None,
